@@ -410,6 +410,21 @@ func (m *mux) ServeHTTP(stdw http.ResponseWriter, stdr *http.Request) {
 	m.inst.Load().(*muxInstance).serveHTTP(stdw, stdr)
 }
 
+// readErrorRecorder remembers the error (other than io.EOF) met while
+// reading the wrapped reader.
+type readErrorRecorder struct {
+	r   io.Reader
+	err error
+}
+
+func (rr *readErrorRecorder) Read(p []byte) (int, error) {
+	n, err := rr.r.Read(p)
+	if err != nil && err != io.EOF {
+		rr.err = err
+	}
+	return n, err
+}
+
 func buildFailureResponse(ctx *context.Context, statusCode int) *httpprot.Response {
 	resp, _ := httpprot.NewResponse(nil)
 	resp.SetStatusCode(statusCode)
@@ -455,7 +470,9 @@ func (mi *muxInstance) serveHTTP(stdw http.ResponseWriter, stdr *http.Request) {
 			header[k] = v
 		}
 		stdw.WriteHeader(resp.StatusCode())
-		respBodySize, _ := io.Copy(stdw, resp.GetPayload())
+		payload := resp.GetPayload()
+		payloadErr := &readErrorRecorder{r: payload}
+		respBodySize, _ := io.Copy(stdw, payloadErr)
 
 		ctx.Finish()
 
@@ -489,6 +506,15 @@ func (mi *muxInstance) serveHTTP(stdw http.ResponseWriter, stdr *http.Request) {
 				stdr.Proto, resp.StatusCode(), metric.Duration, metric.ReqSize,
 				metric.RespSize, ctx.Tags())
 		})
+
+		// The body of a stream response could not be read to its end (e.g.
+		// the backend dropped the connection): the response must not look
+		// complete to the client, abort the connection instead of letting
+		// the HTTP server terminate the response cleanly (the same way
+		// net/http/httputil.ReverseProxy does).
+		if payloadErr.err != nil && stdr.Context().Value(http.ServerContextKey) != nil {
+			panic(http.ErrAbortHandler)
+		}
 	}()
 
 	route := mi.search(req)
